@@ -14,9 +14,11 @@ CHECKS = {
             ("R-ALIAS.mem", "r_alias", "run_mem", ("quick", "thorough")),
             ("R-ALLOC.size", "r_alloc", "run", ("quick", "thorough")),
             ("R-EXTENT.tmp", "r_extent", "run", ("quick", "thorough")),
-            ("R-NORM", "r_norm", "run", ("quick", "thorough"))],
+            ("R-NORM", "r_norm", "run", ("quick", "thorough")),
+            ("R-ALLOC.blockmove", "r_alloc", "run_blockmove", ("quick", "thorough"))],
     "C05": [("R-ALIAS", "r_alias", "run", ("quick", "thorough")),
-            ("R-CONSTSRC.ir", "r_constsrc", "run", ("quick", "thorough"))],
+            ("R-CONSTSRC.ir", "r_constsrc", "run", ("quick", "thorough")),
+            ("R-OVERLAP.contract", "r_ovcontract", "run", ("quick", "thorough"))],
     "C06": [("R-TABLES.c06", "r_tables", "run_c06", ("quick", "thorough")),
             ("R-TABIDX.digit", "r_tables", "run_digit_index", ("quick", "thorough"))],
     "C16": [("R-TABLES.c16", "r_tables", "run_c16", ("quick", "thorough"))],
@@ -69,6 +71,8 @@ RULES = {
     "R-EXTENT.tmp": ("r_extent", "run"),
     "R-ALLOC.io": ("r_alloc", "run_io"),
     "R-NORM": ("r_norm", "run"),
+    "R-OVERLAP.contract": ("r_ovcontract", "run"),
+    "R-ALLOC.blockmove": ("r_alloc", "run_blockmove"),
 }
 
 EXPLANATION = {
@@ -207,6 +211,10 @@ ASSUMPTIONS = {
     "R-STREAM": ["libc failure conventions: fwrite/fread return the item count, fputc/putc/fputs return EOF, fprintf a negative value; "
                  "library stream functions return 0 on failure",
                  "getc-based parsers are not covered by this rule (EOF handling is value-dependent)"],
+    "R-OVERLAP.contract": ["overlap contracts are the routines' own entry assertions (ASSERT (MPN_SAME_OR_INCR_P ..) etc.), re-extracted from the "
+                           "-DWANT_ASSERT=1 export of the built units and every mpn/generic/*.c on each run",
+                           "only call sites passing two parameters that are unmodified on every path from the entry are judged"],
+    "R-ALLOC.blockmove": ["function-level pairing (not per path); parameter objects only"],
     "R-NORM": ["the classification of mpn routines into 'loses at most one high limb' and 'can cancel any number' assumes normalised inputs and exact "
                "operand sizes (the library's calling convention); callees outside the table and sites without a preceding mpn writer are undecided"],
     "R-ALLOC.io": ["R-ALLOC.size / .pair restricted to the I/O units and printf/ scanf/ (same assumptions)"],
